@@ -196,9 +196,9 @@ Example ex_euler_lumped_once :
   qprod (map snd (removelast (merge_grid 1 [(25000, 7 # 10); (50000, 1 # 2)] (solver_grid 100 10000 80000)))) == 7 # 20.
 Proof. split; vm_compute; reflexivity. Qed.
 
+Definition ex_grid : list (Q * Q) := merge_grid 1 [(25000, 7 # 10)] (solver_grid 100 10000 80000).
+Definition ex_loss : list Q := euler_g [1 # 20000; 1 # 25000] [[0; 1 # 3]; [- (1 # 3); 0]] [0; 0] ex_grid [1; 1].
 Example ex_euler_zero :
-  Forall2 Qeq (euler_g [1 # 20000; 1 # 25000] [[0; 1 # 3]; [- (1 # 3); 0]] [0; 0]
-                       (merge_grid 1 [(25000, 7 # 10)] (solver_grid 100 10000 80000)) [1; 1])
-              [grid_factor (1 # 20000) (merge_grid 1 [(25000, 7 # 10)] (solver_grid 100 10000 80000));
-               grid_factor (1 # 25000) (merge_grid 1 [(25000, 7 # 10)] (solver_grid 100 10000 80000))].
-Proof. vm_compute. repeat constructor. Qed.
+  nth 0 ex_loss 0 == grid_factor (1 # 20000) ex_grid /\ nth 1 ex_loss 0 == grid_factor (1 # 25000) ex_grid /\
+  0 < nth 0 ex_loss 0 < 7 # 10.
+Proof. repeat split; vm_compute; reflexivity. Qed.
